@@ -509,6 +509,10 @@ struct Acc {
     fsel: Vec<Value>,
     f: Vec<Value>,
     fp: Vec<Value>,
+    /// helpers on state types that have authorization rules of their own
+    fded: Vec<Value>,
+    /// event types that the event type enums fold into another spelling
+    falias: Vec<Value>,
 }
 impl Acc {
     fn check(&mut self, vname: &str, rules: &AuthorizationRules, st: &St, rst: &HashMap<(StateEventType, String), Pdu>, ev: &Ev) {
@@ -749,6 +753,28 @@ fn scenario_generic(vname: &str, rules: &AuthorizationRules, acc: &mut Acc) {
     }
 }
 
+/// "required power for the event type": the level is the entry of `events` for the type of the event, as a string; two types
+/// that the event type enums treat as spellings of one variant are different types to the rules
+fn scenario_alias(vname: &str, rules: &AuthorizationRules, acc: &mut Acc) {
+    let (stable, unstable) = ("m.call.sdp_stream_metadata_changed", "org.matrix.call.sdp_stream_metadata_changed");
+    for (entry_ty, entry, ed, ls, sent) in [(unstable, 0i64, 50i64, 0i64, stable), (stable, 100, 0, 50, unstable), (stable, 0, 50, 0, unstable), (unstable, 100, 0, 50, stable), (stable, 100, 0, 50, stable), (unstable, 0, 50, 0, unstable)] {
+        let pl = Pl { users: vec![(B.to_string(), Lv::Int(ls))], events: vec![(entry_ty.to_string(), Lv::Int(entry))], events_default: Some(Lv::Int(ed)), ..Default::default() };
+        let st = St { create: Some((A.to_string(), true, None)), pl: Some(pl), join_rule: Some("public".into()), members: members(&[(B, "join"), (A, "join")]) };
+        let rst = render_state(&st);
+        let ev = base_ev(sent, B, None, json!({"call_id": "c", "party_id": "p", "version": "1", "sdp_stream_metadata": {}}));
+        acc.n += 1;
+        let want = O { rules, st: &st }.auth(&ev);
+        if want {
+            acc.accepted += 1;
+        }
+        match real(rules, &rst, &ev) {
+            Ok(got) if got == want => {}
+            Ok(got) => acc.falias.push(describe(vname, &st, &ev, json!(got), want)),
+            Err(_) => acc.fp.push(describe(vname, &st, &ev, json!("panic"), want)),
+        }
+    }
+}
+
 fn scenario_create(vname: &str, rules: &AuthorizationRules, acc: &mut Acc) {
     // the decision for an m.room.create event depends on no state entry (its selection is empty): the same events over an
     // empty state and over states that already hold a create event, power levels and members
@@ -985,6 +1011,28 @@ fn scenario_helpers(vname: &str, rules: &AuthorizationRules, acc: &mut Acc) {
                                     }
                                 }
                             }
+                            // state types whose acceptance is decided by rules of their own, not by `events` / `state_default`
+                            let ded: Vec<(&str, bool, Ev)> = vec![
+                                ("user_can_send_state(m.room.third_party_invite)", helper.user_can_send_state(&b, StateEventType::RoomThirdPartyInvite),
+                                    base_ev("m.room.third_party_invite", B, Some("tok"), json!({"display_name": "d", "key_validity_url": "https://s/v", "public_key": "YWJj"}))),
+                                ("user_can_send_state(m.room.create)", helper.user_can_send_state(&b, StateEventType::RoomCreate), base_ev("m.room.create", B, Some(""), json!({"creator": B}))),
+                            ];
+                            for (name, answer, ev) in ded {
+                                acc.n += 1;
+                                let st = St { create: Some((A.into(), true, None)), pl: Some(pl.clone()), join_rule: Some("invite".into()), members: members(&[(B, "join"), (C, "join"), (A, "join")]) };
+                                let rst = render_state(&st);
+                                if let Ok(got) = real(rules, &rst, &ev) {
+                                    if got {
+                                        acc.accepted += 1;
+                                    }
+                                    if got != answer && acc.fded.len() < 6 {
+                                        let mut d = describe(vname, &st, &ev, json!(got), O { rules, st: &st }.auth(&ev));
+                                        d["helper"] = json!(name);
+                                        d["helper_answer"] = json!(answer);
+                                        acc.fded.push(d);
+                                    }
+                                }
+                            }
                             // effective level and the notification helper vs the real push condition
                             acc.n += 1;
                             let want_level = lb.or(ud).unwrap_or(0);
@@ -1142,10 +1190,13 @@ pub fn run(tier: &str) -> Report {
         .flat_map(|(vn, r)| (0..6).map(move |part| (vn, r.clone(), part)))
         .map(|(vn, rules, part)| {
             std::thread::spawn(move || {
-                let mut acc = Acc { n: 0, accepted: 0, fsel: vec![], f: vec![], fp: vec![] };
+                let mut acc = Acc { n: 0, accepted: 0, fsel: vec![], f: vec![], fp: vec![], fded: vec![], falias: vec![] };
                 match part {
                     0 => scenario_membership(vn, &rules, thorough, &mut acc),
-                    1 => scenario_generic(vn, &rules, &mut acc),
+                    1 => {
+                        scenario_generic(vn, &rules, &mut acc);
+                        scenario_alias(vn, &rules, &mut acc);
+                    }
                     2 => scenario_power_levels(vn, &rules, thorough, &mut acc),
                     3 => scenario_create(vn, &rules, &mut acc),
                     4 => scenario_helpers(vn, &rules, &mut acc),
@@ -1160,6 +1211,8 @@ pub fn run(tier: &str) -> Report {
     let mut f: [Vec<Value>; 6] = Default::default();
     let mut fp = vec![];
     let mut fsel = vec![];
+    let mut fded: Vec<Value> = vec![];
+    let mut falias: Vec<Value> = vec![];
     for h in handles {
         match h.join() {
             Ok((part, acc)) => {
@@ -1173,6 +1226,16 @@ pub fn run(tier: &str) -> Report {
                 for x in acc.fp {
                     if fp.len() < 30 {
                         fp.push(x);
+                    }
+                }
+                for x in acc.falias {
+                    if falias.len() < 60 {
+                        falias.push(x);
+                    }
+                }
+                for x in acc.fded {
+                    if fded.len() < 40 {
+                        fded.push(x);
                     }
                 }
                 for x in acc.fsel {
@@ -1203,9 +1266,11 @@ pub fn run(tier: &str) -> Report {
         obligations: vec![
             ("membership_transitions_accepted_exactly_as_the_rules_say", n[0], f0),
             ("other_event_types_accepted_exactly_as_the_rules_say", n[1], f1),
+            ("other_event_types_with_a_second_spelling_use_the_entry_of_their_own_type", n[1], falias),
             ("power_level_changes_accepted_exactly_as_the_rules_say", n[2], f2),
             ("room_creation_accepted_exactly_as_the_rules_say", n[3], f3),
             ("power_level_helpers_answer_as_auth_check_decides", n[4], f4),
+            ("send_state_helper_on_state_types_with_rules_of_their_own", n[4], fded),
             ("third_party_invites_accepted_exactly_as_the_rules_say", n[5], f5),
             ("decision_depends_only_on_the_selected_auth_state_entries", total, fsel),
             ("selection_is_the_specified_subset_of_the_state", nselection, fselection),
